@@ -44,6 +44,49 @@ def built_classes(model: Model, G: Grammar, D: Dispatch):
     return built
 
 
+def param_fields(ci, depth=0) -> Dict[str, str]:
+    """{constructor parameter: (mangled) field it is stored in}, following
+    super().__init__(...) chains; parameters passed in a list display to the
+    base constructor land in `children`."""
+    r = ci.find_method("__init__")
+    if r is None or depth > 4:
+        return {}
+    owner, init = r
+    params = [a.arg for a in init.args.args[1:]] + [a.arg for a in init.args.kwonlyargs]
+    out = {}
+    for x in ast.walk(init):
+        if isinstance(x, ast.Assign) and isinstance(x.value, ast.Name) and x.value.id in params and isinstance(x.targets[0], ast.Attribute):
+            out[x.value.id] = mangle(owner.name, x.targets[0].attr)
+        if isinstance(x, ast.Call) and last_attr(x) == "__init__":
+            # which base?
+            base = None
+            f = x.func
+            if isinstance(f, ast.Attribute) and isinstance(f.value, ast.Call) and last_attr(f.value) == "super":
+                idx = owner.mro.index(owner) if owner in owner.mro else 0
+                nxt = [c for c in ci.mro[ci.mro.index(owner) + 1:] if "__init__" in c.methods]
+                base = nxt[0] if nxt else None
+                args = list(x.args)
+            elif isinstance(f, ast.Attribute):
+                base = ci.model.resolve_class_expr(owner.file, f.value)
+                args = list(x.args[1:])
+            else:
+                args = []
+            if base is None:
+                continue
+            binit = base.methods.get("__init__")
+            if binit is None:
+                continue
+            bparams = [a.arg for a in binit.args.args[1:]]
+            bmap = param_fields(base, depth + 1)
+            pairs = list(zip(bparams, args)) + [(k.arg, k.value) for k in x.keywords if k.arg]
+            for bp, a in pairs:
+                elts = a.elts if isinstance(a, (ast.List, ast.Tuple)) else [a]
+                for e in elts:
+                    if isinstance(e, ast.Name) and e.id in params and bp in bmap and e.id not in out:
+                        out[e.id] = bmap[bp]
+    return out
+
+
 def field_coverage(model: Model, G: Grammar, D: Dispatch, holders: Set[str], col, rule: str, what: str) -> int:
     """For every AST class the grammar builds: a constructor argument that
     comes from a grammar symbol in `holders` must land in a field that
@@ -56,17 +99,8 @@ def field_coverage(model: Model, G: Grammar, D: Dispatch, holders: Set[str], col
         init = ci.find_method("__init__")
         if init is None:
             continue
-        params = [a.arg for a in init[1].args.args[1:]]
-        pfield = {}
-        for x in ast.walk(init[1]):
-            if isinstance(x, ast.Assign) and isinstance(x.value, ast.Name) and x.value.id in params and isinstance(x.targets[0], ast.Attribute):
-                pfield[x.value.id] = mangle(init[0].name, x.targets[0].attr)
-            # super().__init__([left, right]) style: children list
-            if isinstance(x, ast.Call) and last_attr(x) == "__init__" and x.args and isinstance(x.args[0], (ast.List, ast.Name)):
-                elts = x.args[0].elts if isinstance(x.args[0], ast.List) else [x.args[0]]
-                for e in elts:
-                    if isinstance(e, ast.Name) and e.id in params:
-                        pfield[e.id] = "children"
+        params = [a.arg for a in init[1].args.args[1:]] + [a.arg for a in init[1].args.kwonlyargs]
+        pfield = param_fields(ci)
         trav = {f for f, g in D.traversed_fields(ci)}
         for P, c, pname in sites:
             for prm, a in list(zip(params, c.args)) + [(k.arg, k.value) for k in c.keywords if k.arg]:
